@@ -89,30 +89,33 @@ def Entry.typesAgree (e : Entry) : Bool :=
   | .lower, .mem => agrees e.opTy (reprTy e.lang e.wty)
   | .lift, .mem => agrees e.dstTy (reprTy e.lang e.wty)
 
-/-- The C14 claim for one extracted expression, for *all* inputs:
+/-- The C14 claim for one extracted expression, restricted to the inputs selected by `pre`
+(applied to the input zero-extended to 64 bits, and the `debug_assertions` setting):
 * flat lower: for every value `x` of the WIT type, the expression (converted implicitly to the
   backend's core type where the language does that) yields the core value `Spec.lower x`;
 * flat lift: for every core value `c` (all 2^32 / 2^64) on which lifting is defined, it yields the
   representation of `Spec.lift c`;
 * in-memory lower: the stored cell has exactly the element size and holds `Spec.store x`;
 * in-memory lift: for every content `m` of the 8 bytes at the cell's address, it yields the
-  representation of `Spec.load (low memBits of m)`.
-Both settings of Rust's `debug_assertions` are covered. -/
-def Entry.Correct (e : Entry) : Prop :=
+  representation of `Spec.load (low memBits of m)`. -/
+def Entry.CorrectIf (e : Entry) (pre : BitVec 64 → Bool → Bool) : Prop :=
   e.typesAgree = true ∧
   match e.dir, e.pos with
-  | .lower, .flat => ∀ (x : BitVec e.wty.width) (dbg : Bool), e.wty.valid x = true →
+  | .lower, .flat => ∀ (x : BitVec e.wty.width) (dbg : Bool), pre (x.setWidth 64) dbg = true → e.wty.valid x = true →
       eval e.lang { x := reprVal e.lang e.wty x, dbg := dbg } (.impl (coreTy e.lang e.wty.core) e.expr)
         = .ok (coreVal e.lang e.wty.core (lower e.wty x))
-  | .lift, .flat => ∀ (c : BitVec e.wty.core.width) (dbg : Bool), liftDefined e.wty c = true →
+  | .lift, .flat => ∀ (c : BitVec e.wty.core.width) (dbg : Bool), pre (c.setWidth 64) dbg = true → liftDefined e.wty c = true →
       eval e.lang { x := coreVal e.lang e.wty.core c, dbg := dbg } (.impl (reprTy e.lang e.wty) e.expr)
         = .ok (reprVal e.lang e.wty (lift e.wty c))
-  | .lower, .mem => ∀ (x : BitVec e.wty.width) (dbg : Bool), e.wty.valid x = true →
+  | .lower, .mem => ∀ (x : BitVec e.wty.width) (dbg : Bool), pre (x.setWidth 64) dbg = true → e.wty.valid x = true →
       cellOf (eval e.lang { x := reprVal e.lang e.wty x, dbg := dbg } e.expr)
         = some (e.wty.memBits, (store e.wty x).setWidth 64)
-  | .lift, .mem => ∀ (m : BitVec 64) (dbg : Bool), loadDefined e.wty (m.setWidth e.wty.memBits) = true →
+  | .lift, .mem => ∀ (m : BitVec 64) (dbg : Bool), pre m dbg = true → loadDefined e.wty (m.setWidth e.wty.memBits) = true →
       eval e.lang { x := default, mem := m, dbg := dbg } (.impl (reprTy e.lang e.wty) e.expr)
         = .ok (reprVal e.lang e.wty (load e.wty (m.setWidth e.wty.memBits)))
+
+/-- The full C14 claim: all inputs, both settings of Rust's `debug_assertions`. -/
+def Entry.Correct (e : Entry) : Prop := e.CorrectIf (fun _ _ => true)
 
 /-- Pointwise, decidable version used by the driver (`m_scalar`) when searching for a failing
 input: input `i` is truncated to the domain's width.  Returns (holds, actual, expected). -/
@@ -138,16 +141,23 @@ def Entry.evalAt (e : Entry) (i : BitVec 64) (dbg : Bool) : Bool × Res × Res :
     let b := Res.ok (reprVal e.lang e.wty (load e.wty (i.setWidth e.wty.memBits)))
     (!loadDefined e.wty (i.setWidth e.wty.memBits) || a == b, a, b)
 
-/-! ## Variant-slot casts (C04, backend half) -/
+/-! ## Variant-slot casts (C04, backend half)
 
-/-- One `Bitcast` expression extracted from generated output: moves a core value of type `src`
-into a slot of type `dst`. -/
+A variant case whose payload has WIT type `payload` (core type `payload.core`) shares a flat slot of
+joined type `slot` with the other cases.  On the lowering side the backend emits one expression that
+takes the *payload value* to the slot (scalar lowering followed by the `Bitcast`); on the lifting
+side one expression that takes the slot's core value back to the payload value (`Bitcast` followed
+by scalar lifting).  Probes use payload types whose scalar lowering/lifting is the identity on
+bits (`s32`, `u32`, `f32`, `f64`), so the claims below are claims about the `Bitcast`. -/
+
 structure CastEntry where
   lang : Lang
-  /-- abi.rs name: `F32ToI64`, … -/
+  /-- abi.rs name of the `Bitcast`: `F32ToI64`, … -/
   kind : String
-  src : Core
-  dst : Core
+  payload : WTy
+  slot : Core
+  /-- `true`: payload value → slot value (lowering); `false`: slot value → payload value (lifting) -/
+  lowering : Bool
   side : String
   opTy : Option Ty
   dstTy : Option Ty
@@ -156,29 +166,72 @@ structure CastEntry where
   deriving Repr, Inhabited
 
 def CastEntry.typesAgree (e : CastEntry) : Bool :=
-  agrees e.opTy (coreTy e.lang e.src) && agrees e.dstTy (coreTy e.lang e.dst)
+  if e.lowering then agrees e.opTy (reprTy e.lang e.payload) && agrees e.dstTy (coreTy e.lang e.slot)
+  else agrees e.opTy (coreTy e.lang e.slot) && agrees e.dstTy (reprTy e.lang e.payload)
 
-def CastEntry.run (e : CastEntry) (c : BitVec e.src.width) (junk : BitVec 64) : Res :=
-  eval e.lang { x := coreVal e.lang e.src c, junk := junk } (.impl (coreTy e.lang e.dst) e.expr)
+/-- run a lowering entry on a payload value -/
+def CastEntry.runLower (e : CastEntry) (v : BitVec e.payload.width) (junk : BitVec 64) : Res :=
+  eval e.lang { x := reprVal e.lang e.payload v, junk := junk } (.impl (coreTy e.lang e.slot) e.expr)
 
-/-- the emitted conversion *is* the canonical ABI's (reinterpret / zero-extend / wrap) -/
-def CastEntry.IsSpec (e : CastEntry) : Prop :=
+/-- run a lifting entry on a slot value -/
+def CastEntry.runLift (e : CastEntry) (c : BitVec e.slot.width) (junk : BitVec 64) : Res :=
+  eval e.lang { x := coreVal e.lang e.slot c, junk := junk } (.impl (reprTy e.lang e.payload) e.expr)
+
+/-- what the canonical ABI puts into the slot for payload value `v` -/
+def specLower (payload : WTy) (slot : Core) (v : BitVec payload.width) : Option (BitVec slot.width) :=
+  joinConv payload.core slot (lower payload v)
+
+/-- what the canonical ABI reads out of slot value `c` for a case of this payload type -/
+def specLift (payload : WTy) (slot : Core) (c : BitVec slot.width) : Option (BitVec payload.width) :=
+  match joinConv slot payload.core c with
+  | some r => some (lift payload r)
+  | none => none
+
+/-- the emitted conversion *is* the canonical ABI's (reinterpret / zero-extend / wrap), on the
+inputs selected by `pre` (applied to the input zero-extended to 64 bits) -/
+def CastEntry.IsSpecIf (e : CastEntry) (pre : BitVec 64 → Bool) : Prop :=
   e.typesAgree = true ∧
-  ∀ (c : BitVec e.src.width) (junk : BitVec 64),
-    (joinConv e.src e.dst c).map (fun r => Res.ok (coreVal e.lang e.dst r)) = some (e.run c junk)
+  if e.lowering then
+    ∀ (v : BitVec e.payload.width) (junk : BitVec 64), pre (v.setWidth 64) = true →
+      (specLower e.payload e.slot v).map (fun r => Res.ok (coreVal e.lang e.slot r)) = some (e.runLower v junk)
+  else
+    ∀ (c : BitVec e.slot.width) (junk : BitVec 64), pre (c.setWidth 64) = true →
+      (specLift e.payload e.slot c).map (fun r => Res.ok (reprVal e.lang e.payload r)) = some (e.runLift c junk)
 
-/-- `back ∘ fwd` recovers every source bit pattern -/
+/-- full claim: all 2^32 / 2^64 bit patterns -/
+def CastEntry.IsSpec (e : CastEntry) : Prop := e.IsSpecIf (fun _ => true)
+
+/-- lowering with `fwd` and lifting the resulting slot value with `back` recovers every payload
+bit pattern (whatever the uninitialised storage holds) -/
 def RoundTrip (fwd back : CastEntry) : Prop :=
-  fwd.lang = back.lang ∧ fwd.dst = back.src ∧ back.dst = fwd.src ∧
-  ∀ (c : BitVec fwd.src.width) (j₁ j₂ : BitVec 64),
-    ∃ v, fwd.run c j₁ = .ok v ∧
-      eval back.lang { x := v, junk := j₂ } (.impl (coreTy back.lang back.dst) back.expr)
-        = .ok ⟨coreTy fwd.lang fwd.src, c.setWidth 64⟩
+  ∀ (v : BitVec fwd.payload.width) (j₁ j₂ : BitVec 64),
+    ∃ s, fwd.runLower v j₁ = .ok s ∧
+      eval back.lang { x := s, junk := j₂ } (.impl (reprTy back.lang fwd.payload) back.expr)
+        = .ok (reprVal fwd.lang fwd.payload v)
+
+/-- all (lowering, lifting) pairs of two lists round-trip -/
+def RoundTrips (fwds backs : List CastEntry) : Prop :=
+  ∀ f ∈ fwds, ∀ b ∈ backs, RoundTrip f b
 
 def CastEntry.evalAt (e : CastEntry) (i junk : BitVec 64) : Bool × Res × Option Res :=
-  let c : BitVec e.src.width := i.setWidth _
-  let a := e.run c junk
-  let b := (joinConv e.src e.dst c).map (fun r => Res.ok (coreVal e.lang e.dst r))
-  (b == some a, a, b)
+  if e.lowering then
+    let v : BitVec e.payload.width := i.setWidth _
+    let a := e.runLower v junk
+    let b := (specLower e.payload e.slot v).map (fun r => Res.ok (coreVal e.lang e.slot r))
+    (b == some a, a, b)
+  else
+    let c : BitVec e.slot.width := i.setWidth _
+    let a := e.runLift c junk
+    let b := (specLift e.payload e.slot c).map (fun r => Res.ok (reprVal e.lang e.payload r))
+    (b == some a, a, b)
+
+/-- pointwise round trip for the driver: (holds, slot value, recovered) -/
+def roundTripAt (fwd back : CastEntry) (i j₁ j₂ : BitVec 64) : Bool × Res × Res :=
+  let v : BitVec fwd.payload.width := i.setWidth _
+  match fwd.runLower v j₁ with
+  | .ok s =>
+    let r := eval back.lang { x := s, junk := j₂ } (.impl (reprTy back.lang fwd.payload) back.expr)
+    (r == .ok (reprVal fwd.lang fwd.payload v), .ok s, r)
+  | r => (false, r, r)
 
 end Witverif.Scalar
